@@ -40,8 +40,10 @@ def _solve(W, w, vel, dim):
     return out
 
 
-def pair_chain(calcobj, crys, chem, bFV, bFS, bFSV, bFT0, bFT1, bFT2, n):
-    """Returns (Sss, Ssv, Svv - Svv_ref, info) on the n^dim torus."""
+def pair_chain(calcobj, crys, chem, bFV, bFS, bFSV, bFT0, bFT1, bFT2, n, record=None):
+    """Returns (Sss, Ssv, Svv - Svv_ref, info) on the n^dim torus.  If record is a list, every transition is
+    appended to it as (state, new state, kind, index into the hop list) -- the structure spec/rel/PairChain.tla
+    defines and TLC enumerates."""
     from onsager import crystalStars as stars
     dim, basis = crys.dim, crys.basis[chem]
     N = len(basis)
@@ -82,8 +84,10 @@ def pair_chain(calcobj, crys, chem, bFV, bFS, bFSV, bFT0, bFT1, bFT2, n):
     byfrom = {}
     for h in hops:
         byfrom.setdefault(h[1], []).append(h)
+    hopindex = {id(h): k for k, h in enumerate(hops)}
     for m, (a, b, R) in enumerate(states):
-        for jt, i, j, dx, dR in byfrom.get(b, ()):
+        for h in byfrom.get(b, ()):
+            jt, i, j, dx, dR = h
             Rn = tuple((np.array(R) + dR) % n)
             if j == a and not any(Rn):
                 mnew = index[(b, a, tuple((-np.array(R)) % n))]
@@ -102,6 +106,8 @@ def pair_chain(calcobj, crys, chem, bFV, bFS, bFSV, bFT0, bFT1, bFT2, n):
                     nclass["om1"] += 1
                 dxs, dxv = 0 * dx, dx
             W[m, mnew] += rate
+            if record is not None:
+                record.append((states[m], states[mnew], "Exchange" if (j == a and not any(Rn)) else "Hop", hopindex[id(h)]))
             bare["ss"] += 0.5 * w[m] * rate * np.outer(dxs, dxs)
             bare["sv"] += 0.5 * w[m] * rate * np.outer(dxs, dxv)
             bare["vv"] += 0.5 * w[m] * rate * np.outer(dxv, dxv)
@@ -121,7 +127,8 @@ def pair_chain(calcobj, crys, chem, bFV, bFS, bFSV, bFT0, bFT1, bFT2, n):
     L0, persite = lone_vacancy(crys, chem, sitelist, om0_jn, bFV, bFT0, persite=True)
     pS = np.array([np.exp(-bFS[invmap[i]]) for i in range(N)]) * N / ZS
     Svv_ref = L0 * N * (n ** dim) - sum(pS[a] * persite[a] for a in range(N)) / N
-    return Sss, Ssv, Svv - Svv_ref, {"states": M, "detailed_balance": db, "classes": nclass}
+    return Sss, Ssv, Svv - Svv_ref, {"states": M, "detailed_balance": db, "classes": nclass,
+                                     "hops": [(i, j, [int(x) for x in dR]) for jt, i, j, dx, dR in hops]}
 
 
 def lone_vacancy(crys, chem, sitelist, om0_jn, bFV, bFT0, persite=False):
